@@ -1162,87 +1162,181 @@ theorem statePush_sound (merge : L → α → L × Bool) (i0 : α → β) (i1 : 
           have := hwf 1 (h6 hc)
           rw [(h7 hs).2] at this; cases this)
 
-/-! ## ResolveFutures, blocking mode (`subgraph_waker = None`), over the scripted queue -/
+/-! ## ResolveFutures over the scripted queue (blocking: `subgraph_waker = None`; non-blocking: `Some`) -/
 
-def aux_invResolve (ordered : Bool) (q0 : List (QEntry β)) : Inv1T (List (QEntry β)) (Nat × β) β :=
-  fun pu q pd su sd =>
+/-- `waker = false`: blocking mode. `finalizing` is set exactly when the downstream's finalize was
+    started; from then on nothing is sent (in non-blocking mode the queue may still hold futures). -/
+def aux_invResolve (ordered waker : Bool) (q0 : List (QEntry β)) : Inv1T (ResSt β) (Nat × β) β :=
+  fun pu k pd su sd =>
     (pd.started = true → pu.started = true) ∧ pd.closed = pu.closed ∧
-    (sd ++ qvals q).Perm (qvals q0 ++ su.map (·.2)) ∧
-    (ordered = true → sd ++ qvals q = qvals q0 ++ su.map (·.2)) ∧
-    (pd.started = true → q = [])
+    (pu.ready = true → pu.started = false → pd.ready = true) ∧
+    (sd ++ qvals k.q).Perm (qvals q0 ++ su.map (·.2)) ∧
+    (ordered = true → sd ++ qvals k.q = qvals q0 ++ su.map (·.2)) ∧
+    (pd.started = true → k.finalizing = true) ∧
+    (k.finalizing = true → pu.started = true) ∧
+    (k.finalizing = true → waker = false → k.q = [])
 
-theorem aux_perm_nil_left {a b : List β} (h : (a ++ b).Perm []) : a = [] ∧ b = [] := by
-  have := h.eq_nil
-  simpa using this
+/-- what the guarded `empty_ready` does: nothing once `finalizing`, otherwise a drain of some queue
+    outputs followed by one more `ready?` -/
+theorem aux_resEmptyReady {ordered waker fl : Bool} {k k1 : ResSt β} {es : List (PEv β)} {b : Bool}
+    (he : Emits (resEmptyReady ordered waker fl k) es (k1, b)) :
+    (k.finalizing = true ∧ es = [] ∧ k1 = k ∧ b = true) ∨
+    (k.finalizing = false ∧ ∃ sent r, es = onPort 0 (drainTr sent ++ [Ev.rdy r]) ∧
+      (sent ++ qvals k1.q).Perm (qvals k.q) ∧ (ordered = true → sent ++ qvals k1.q = qvals k.q) ∧
+      (b = true → r = true) ∧ (b = true → waker = false → k1.q = []) ∧ k1.finalizing = (fl && b)) := by
+  unfold resEmptyReady at he
+  cases hf : k.finalizing with
+  | true =>
+    simp only [hf, if_true, emits_ret] at he
+    obtain ⟨rfl, hk⟩ := he
+    cases hk
+    exact Or.inl ⟨rfl, rfl, rfl, rfl⟩
+  | false =>
+    simp only [hf, Bool.false_eq_true, if_false, emits_bind, emits_ret] at he
+    obtain ⟨es1, ⟨q1, b1⟩, es2, h1, ⟨rfl, hk⟩, rfl⟩ := he
+    cases hk
+    obtain ⟨sent, r, rfl, g1, g2, g3, g4⟩ := emptyReadyAux_shape ordered waker (k.q.length + 1) (by omega) h1
+    exact Or.inr ⟨rfl, sent, r, by simp, g1, g2, g3, g4, rfl⟩
 
-theorem aux_emptyReady {ordered : Bool} {q q1 : List (QEntry β)} {es : List (PEv β)} {b : Bool} {pd : PSt}
-    (he : Emits (emptyReady ordered false q) es (q1, b)) (h5 : pd.started = true → q = []) :
-    ∃ es0 pd', es = onPort 0 es0 ∧ pd.run es0 = some pd' ∧ pd'.started = pd.started ∧ pd'.closed = pd.closed ∧
-      (sends es0 ++ qvals q1).Perm (qvals q) ∧ (ordered = true → sends es0 ++ qvals q1 = qvals q) ∧
-      (b = true → q1 = []) ∧ (pd.started = true → q1 = []) := by
-  obtain ⟨sent, r, rfl, g1, g2, g3, g4⟩ := emptyReadyAux_shape ordered false (q.length + 1) (by omega) he
-  have hso : sent = [] ∨ pd.started = false := by
-    cases hs : pd.started
-    · exact Or.inr rfl
-    · have := h5 hs; subst this
-      exact Or.inl (aux_perm_nil_left (by simpa using g1)).1
-  refine ⟨_, _, rfl, run_drainTr_rdy sent r hso, rfl, rfl, by simpa using g1, by simpa using g2, fun hb => g4 hb rfl, ?_⟩
-  intro hs; have := h5 hs; subst this
-  have := (aux_perm_nil_left (by simpa using g1)).2
-  cases q1 <;> simp_all [qvals]
-
-theorem aux_simResolve (ordered : Bool) (q0 : List (QEntry β)) :
-    SimInv1 (resolveC (β := β) ordered false) (aux_invResolve ordered q0) where
+theorem aux_simResolve (ordered waker : Bool) (q0 : List (QEntry β)) :
+    SimInv1 (resolveC (β := β) ordered waker) (aux_invResolve ordered waker q0) where
   ready := by
-    intro pu q pd su sd es k1 b ⟨h1, h2, h3, h4, h5⟩ he
-    obtain ⟨es0, pd', rfl, hr, g1, g2, g3, g4, g5, g6⟩ := aux_emptyReady (pd := pd) he h5
-    refine ⟨es0, pd', rfl, hr, by rw [g1]; exact h1, by rw [g2]; exact h2, ?_, ?_, by rw [g1]; exact g6⟩
-    · rw [List.append_assoc]; exact (List.Perm.append_left sd g3).trans h3
-    · intro ho; rw [List.append_assoc, g4 ho]; exact h4 ho
-  send := by
-    intro pu q pd su sd es k1 x ⟨h1, h2, h3, h4, h5⟩ hr hs he
-    simp only [resolveC, Bool.false_eq_true, if_false, emits_ret] at he
-    obtain ⟨rfl, rfl⟩ := he
-    have hps := aux_started_false h1 hs
-    refine ⟨[], pd, rfl, rfl, h1, h2, ?_, ?_, ?_⟩
-    · simp only [sends_nil, List.append_nil, qvals_append, qvals_cons, qvals_nil, List.map_append, List.map_cons, List.map_nil]
-      rw [← List.append_assoc, ← List.append_assoc]
-      exact List.Perm.append_right _ h3
-    · intro ho
-      simp only [sends_nil, List.append_nil, qvals_append, qvals_cons, qvals_nil, List.map_append, List.map_cons, List.map_nil]
-      rw [← List.append_assoc, ← List.append_assoc, h4 ho]
-    · intro h; rw [hps] at h; cases h
-  fin := by
-    intro pu q pd su sd es k1 b ⟨h1, h2, h3, h4, h5⟩ he
-    obtain ⟨es1, b1, he1, hcase⟩ := thenFin_shape he
-    obtain ⟨es0, pd', rfl, hr, g1, g2, g3, g4, g5, g6⟩ := aux_emptyReady (pd := pd) he1 h5
-    rcases hcase with ⟨rfl, rfl⟩ | ⟨rfl, rfl, rfl⟩
-    · refine ⟨es0 ++ [Ev.fin b], { pd' with started := true, closed := pd'.closed || b }, by simp [onPort], ?_, fun _ => rfl,
-        by simp [g2, h2], ?_, ?_, fun _ => g5 rfl⟩
-      · rw [PSt.run_append, hr]; simp [PSt.run, PSt.step]
-      · simp only [sends_append, sends_fin, sends_nil, List.append_nil]
-        rw [List.append_assoc]; exact (List.Perm.append_left sd g3).trans h3
+    intro pu k pd su sd es k1 b ⟨h1, h2, h3, h4, h5, h6, h7, h8⟩ he
+    rcases aux_resEmptyReady he with ⟨hf, rfl, rfl, rfl⟩ | ⟨hf, sent, r, rfl, g1, g2, g3, g4, g5⟩
+    · refine ⟨[], pd, rfl, rfl, h1, h2, ?_, by simpa using h4, by simpa using h5, h6, h7, h8⟩
+      intro _ hs; rw [h7 hf] at hs; cases hs
+    · have hps : pd.started = false := by
+        cases h : pd.started
+        · rfl
+        · rw [h6 h] at hf; cases hf
+      refine ⟨_, _, rfl, run_drainTr_rdy sent r (Or.inr hps), h1, h2, ?_, ?_, ?_, ?_, ?_, ?_⟩
+      · intro hb _; exact g3 hb
+      · simp only [sends_drainTr, sends_rdy, sends_nil, List.append_nil]
+        rw [List.append_assoc]; exact (List.Perm.append_left sd g1).trans h4
       · intro ho
-        simp only [sends_append, sends_fin, sends_nil, List.append_nil]
-        rw [List.append_assoc, g4 ho]; exact h4 ho
-    · refine ⟨es0, pd', rfl, hr, fun h => by simp, by simp [g2, h2], ?_, ?_, by rw [g1]; exact g6⟩
-      · rw [List.append_assoc]; exact (List.Perm.append_left sd g3).trans h3
-      · intro ho; rw [List.append_assoc, g4 ho]; exact h4 ho
+        simp only [sends_drainTr, sends_rdy, sends_nil, List.append_nil]
+        rw [List.append_assoc, g2 ho]; exact h5 ho
+      · intro h; rw [hps] at h; cases h
+      · intro h; rw [g5] at h; simp at h
+      · intro h; rw [g5] at h; simp at h
+  send := by
+    intro pu k pd su sd es k1 x ⟨h1, h2, h3, h4, h5, h6, h7, h8⟩ hr hs he
+    have hps := aux_started_false h1 hs
+    have hpr := h3 hr hs
+    have hf : k.finalizing = false := by
+      cases h : k.finalizing
+      · rfl
+      · rw [h7 h] at hs; cases hs
+    have hperm : ∀ tl : List β, (sd ++ tl).Perm (qvals q0 ++ su.map (·.2) ++ [x.2]) →
+        (sd ++ tl).Perm (qvals q0 ++ (su ++ [x]).map (·.2)) := by
+      intro tl h; simpa [List.map_append] using h
+    cases waker with
+    | false =>
+      simp only [resolveC, Bool.false_eq_true, if_false, emits_ret] at he
+      obtain ⟨rfl, rfl⟩ := he
+      refine ⟨[], pd, rfl, rfl, h1, h2, by simp, ?_, ?_, h6, ?_, ?_⟩
+      · simp only [sends_nil, List.append_nil, qvals_append, qvals_cons, qvals_nil, List.map_append, List.map_cons, List.map_nil]
+        rw [← List.append_assoc, ← List.append_assoc]
+        exact List.Perm.append_right _ h4
+      · intro ho
+        simp only [sends_nil, List.append_nil, qvals_append, qvals_cons, qvals_nil, List.map_append, List.map_cons, List.map_nil]
+        rw [← List.append_assoc, ← List.append_assoc, h5 ho]
+      · intro h; rw [hf] at h; cases h
+      · intro h; rw [hf] at h; cases h
+    | true =>
+      simp only [resolveC, if_true] at he
+      have hsp := qPoll_spec ordered (k.q ++ [⟨x.1, x.2, false⟩])
+      cases hq : qPoll ordered (k.q ++ [⟨x.1, x.2, false⟩]) with
+      | mk qq res =>
+        rw [hq] at hsp he
+        cases res with
+        | item y =>
+          simp only [emits_snd, emits_ret] at he hsp
+          obtain ⟨es', rfl, rfl, rfl⟩ := he
+          obtain ⟨p1, p2, _⟩ := hsp
+          refine ⟨[.snd y], { pd with ready := false }, rfl, by simp [PSt.run, PSt.step, hpr, hps], h1, h2, by simp, ?_, ?_, h6, ?_, ?_⟩
+          · simp only [sends_snd, sends_nil, List.map_append, List.map_cons, List.map_nil]
+            have e1 : (sd ++ [y] ++ qvals qq).Perm (sd ++ (qvals k.q ++ [x.2])) := by
+              rw [List.append_assoc]
+              exact List.Perm.append_left sd (by simpa using p1)
+            refine e1.trans ?_
+            rw [← List.append_assoc, ← List.append_assoc]
+            exact List.Perm.append_right _ h4
+          · intro ho
+            simp only [sends_snd, sends_nil, List.map_append, List.map_cons, List.map_nil]
+            have := p2 ho
+            simp only [qvals_append, qvals_cons, qvals_nil] at this
+            rw [List.append_assoc, List.singleton_append, this, ← List.append_assoc, h5 ho, List.append_assoc]
+          · intro h; rw [hf] at h; cases h
+          · intro h; rw [hf] at h; cases h
+        | ended =>
+          simp only [emits_ret] at he hsp
+          exact absurd hsp.1 (by simp)
+        | pending =>
+          simp only [emits_ret] at he hsp
+          obtain ⟨rfl, rfl⟩ := he
+          obtain ⟨p1, _, _⟩ := hsp
+          refine ⟨[], pd, rfl, rfl, h1, h2, by simp, ?_, ?_, h6, ?_, ?_⟩
+          · simp only [sends_nil, List.append_nil, p1, qvals_append, qvals_cons, qvals_nil, List.map_append, List.map_cons, List.map_nil]
+            rw [← List.append_assoc, ← List.append_assoc]
+            exact List.Perm.append_right _ h4
+          · intro ho
+            simp only [sends_nil, List.append_nil, p1, qvals_append, qvals_cons, qvals_nil, List.map_append, List.map_cons, List.map_nil]
+            rw [← List.append_assoc, ← List.append_assoc, h5 ho]
+          · intro h; rw [hf] at h; cases h
+          · intro h; rw [hf] at h; cases h
+  fin := by
+    intro pu k pd su sd es k1 b ⟨h1, h2, h3, h4, h5, h6, h7, h8⟩ he
+    obtain ⟨es1, b1, he1, hcase⟩ := thenFin_shape he
+    rcases aux_resEmptyReady he1 with ⟨hf, rfl, rfl, rfl⟩ | ⟨hf, sent, r, rfl, g1, g2, g3, g4, g5⟩
+    · -- already finalizing: only the downstream's `poll_finalize` is polled again
+      rcases hcase with ⟨_, rfl⟩ | ⟨hb, _, _⟩
+      · refine ⟨[.fin b], { pd with started := true, closed := pd.closed || b }, rfl, by simp [PSt.run, PSt.step],
+          fun _ => rfl, by simp [h2], by simp, by simpa using h4, by simpa using h5, fun _ => hf, fun _ => rfl, h8⟩
+      · cases hb
+    · have hps : pd.started = false := by
+        cases h : pd.started
+        · rfl
+        · rw [h6 h] at hf; cases hf
+      rcases hcase with ⟨rfl, rfl⟩ | ⟨rfl, rfl, rfl⟩
+      · have hr := g3 rfl; subst hr
+        refine ⟨drainTr sent ++ [Ev.rdy true] ++ [Ev.fin b],
+          { pd with ready := true, started := true, closed := pd.closed || b }, by simp [onPort], ?_,
+          fun _ => rfl, by simp [h2], by simp, ?_, ?_, ?_, fun _ => rfl, fun _ hw => g4 rfl hw⟩
+        · rw [PSt.run_append, run_drainTr_rdy sent true (Or.inr hps)]; simp [PSt.run, PSt.step]
+        · simp only [sends_append, sends_drainTr, sends_drainTr', sends_rdy, sends_fin, sends_nil, List.append_nil]
+          rw [List.append_assoc]; exact (List.Perm.append_left sd g1).trans h4
+        · intro ho
+          simp only [sends_append, sends_drainTr, sends_drainTr', sends_rdy, sends_fin, sends_nil, List.append_nil]
+          rw [List.append_assoc, g2 ho]; exact h5 ho
+        · intro _; rw [g5]; rfl
+      · refine ⟨_, _, rfl, run_drainTr_rdy sent r (Or.inr hps), fun _ => rfl, by simp [h2], by simp, ?_, ?_, ?_, fun _ => rfl, ?_⟩
+        · simp only [sends_drainTr, sends_rdy, sends_nil, List.append_nil]
+          rw [List.append_assoc]; exact (List.Perm.append_left sd g1).trans h4
+        · intro ho
+          simp only [sends_drainTr, sends_rdy, sends_nil, List.append_nil]
+          rw [List.append_assoc, g2 ho]; exact h5 ho
+        · intro h; rw [hps] at h; cases h
+        · intro h; rw [g5] at h; simp at h
+
+theorem aux_invResolve_init (ordered waker : Bool) (q0 : List (QEntry β)) :
+    aux_invResolve ordered waker q0 {} ⟨q0, false⟩ {} [] [] :=
+  ⟨by simp, rfl, by simp, by simp, by simp, by simp, by simp, by simp⟩
 
 /-- `ResolveFutures` in blocking mode over the scripted queue (initial content `q0`): at completion
     every future's output — those already queued and those pushed — was delivered exactly once (a
     permutation; in queue order for the ordered queue), each after a `ready? true`, none after
     finalize was started, for all resolution delays and downstream pending patterns. -/
 theorem resolveFutures_blocking_sound (ordered : Bool) (q0 : List (QEntry β)) :
-    (resolveC (β := β) ordered false).Sound q0 [0]
+    (resolveC (β := β) ordered false).Sound ⟨q0, false⟩ [0]
       (fun _ ins outs => outs.Perm (qvals q0 ++ ins.map (·.2)) ∧
         (ordered = true → outs = qvals q0 ++ ins.map (·.2))) :=
-  (aux_simResolve ordered q0).sound ⟨by simp, rfl, by simp, by simp, by simp⟩ (fun pu q pd su sd h hwf hc => by
-    obtain ⟨h1, h2, h3, h4, h5⟩ := h
+  (aux_simResolve ordered false q0).sound (aux_invResolve_init ordered false q0) (fun pu k pd su sd h hwf hc => by
+    obtain ⟨h1, h2, h3, h4, h5, h6, h7, h8⟩ := h
     have hpc : pd.closed = true := by rw [h2]; exact hc
-    have hq := h5 (hwf hpc)
-    subst hq
-    exact ⟨hpc, by simpa using h3, by simpa using h4⟩)
+    have hq := h8 (h6 (hwf hpc)) rfl
+    rw [hq] at h4 h5
+    exact ⟨hpc, by simpa using h4, by simpa using h5⟩)
 
 /-! ## The standard driver `SendPush::poll` (= `SendSink::poll` over `SinkCompat`) -/
 
@@ -1299,176 +1393,60 @@ theorem sendPush_end_to_end {K : Comb κ α β} {k0 : κ} {ports : List Nat} {sp
   rw [hs] at this
   exact this
 
-/-! ## ResolveFutures, non-blocking mode (`subgraph_waker = Some`): the contract clause that fails (F124) -/
+/-! ## ResolveFutures, non-blocking mode (`subgraph_waker = Some`) — after the F124 fix -/
 
-/-- The full statement for the non-blocking mode — not a theorem of the code that exists. -/
-def ResolveNonblockingStatement : Prop :=
-  ∀ (ordered : Bool) (q0 : List (QEntry Nat)), (resolveC (β := Nat) ordered true).Sound q0 [0] (fun _ _ _ => True)
+/-- `ResolveFutures` in non-blocking mode (the code after the F124 fix: `empty_ready` is skipped
+    once `poll_finalize` has reached the downstream): for every contract-honouring caller —
+    including one that polls `poll_ready` / `poll_finalize` again after finalize was started or
+    `Done`, as `FlatMap` / `Fanout` do — the downstream sees a contract-honouring trace (every send
+    directly enabled by a `ready? true`, **no send once its finalize was called**), is finalized at
+    completion, and has received a part of the expected outputs: nothing else, nothing twice, and
+    for the ordered queue a prefix in queue order. What the rest is: `resolveNonblocking_conservation`. -/
+theorem resolveFutures_nonblocking_sound (ordered : Bool) (q0 : List (QEntry β)) :
+    (resolveC (β := β) ordered true).Sound ⟨q0, false⟩ [0]
+      (fun _ ins outs => ∃ rest, (outs ++ rest).Perm (qvals q0 ++ ins.map (·.2)) ∧
+        (ordered = true → outs ++ rest = qvals q0 ++ ins.map (·.2))) :=
+  (aux_simResolve ordered true q0).sound (aux_invResolve_init ordered true q0) (fun pu k pd su sd h _ hc => by
+    obtain ⟨_, h2, _, h4, h5, _⟩ := h
+    exact ⟨by rw [h2]; exact hc, qvals k.q, h4, h5⟩)
 
-/-- Witness: `ready`, `send (future pending 3 polls, value 5)`, `finalize → Done`, then two more
-    `finalize` polls (what `Fanout` does to a finished branch): the caller honours the contract, the
-    downstream gets `send 5` after its `finalize? true`. -/
-theorem resolveNonblocking_sendAfterDone_refuted : ¬ ResolveNonblockingStatement := by
-  intro h
-  have ht := (resolveC (β := Nat) true true).run_tr leaf [] (⟨[], [], []⟩ : Leaf Nat)
-    [.rdy, .snd (3, 5), .fin, .fin, .fin]
-  have hup : ProtoOk ((resolveC (β := Nat) true true).run leaf [] (⟨[], [], []⟩ : Leaf Nat)
-      [.rdy, .snd (3, 5), .fin, .fin, .fin]).up := by unfold ProtoOk; decide
-  have := (h true [] _ _ _ ht hup).1 0
-  revert this
-  unfold ProtoOk
-  decide
+/-- Conservation in both modes, at every point of every contract-honouring history (not only at
+    completion): delivered ++ still queued is a permutation of (initially queued ++ pushed), equal
+    to it for the ordered queue — no output is lost or duplicated; unresolved futures of the
+    non-blocking mode stay in the (external) queue for a later tick. -/
+theorem resolveNonblocking_conservation (ordered waker : Bool) (q0 : List (QEntry β)) {up : List (Ev (Nat × β))}
+    {down : List (PEv β)} {k' : ResSt β}
+    (ht : (resolveC (β := β) ordered waker).Tr ⟨q0, false⟩ up down k') (hok : ProtoOk up) :
+    (sends (port 0 down) ++ qvals k'.q).Perm (qvals q0 ++ (sends up).map (·.2)) ∧
+    (ordered = true → sends (port 0 down) ++ qvals k'.q = qvals q0 ++ (sends up).map (·.2)) := by
+  obtain ⟨pu, pd, _, _, _, _, h4, h5, _⟩ :=
+    (aux_simResolve ordered waker q0).reach (aux_invResolve_init ordered waker q0) ht hok
+  exact ⟨h4, h5⟩
 
-/-- the readiness clause alone: `send` only directly enabled by a `ready? true` -/
-def PSt.stepW (p : PSt) : Ev β → Option PSt
-  | .snd _ => if p.ready then some { p with ready := false } else none
-  | e => p.step e
+/-- The F124 witnesses on the fixed model: (a) under the standard driver with the downstream's
+    finalize `Pending` once, a future that resolves in between is *not* sent after `finalize? false`
+    (the old code sent it: `0f0 0r1 0s5`); (b) `ready, send, finalize → Done, finalize, finalize`
+    (what `Fanout` does to a finished branch): nothing is sent after `finalize? true`. In both the
+    future stays queued. -/
+example :
+    let o := drive (resolveC (β := Nat) true true) leaf (fun _ => false) 3
+      ⟨[some (3, 5)], false, ⟨[], false⟩, (⟨[], [[false]], []⟩ : Leaf Nat)⟩
+    o.ready = true ∧ sends (port 0 o.down) = [] ∧ o.st.k.q.length = 1 ∧ ProtoOk (port 0 o.down) := by
+  unfold ProtoOk; decide
 
-def PSt.runW (p : PSt) : List (Ev β) → Option PSt
-  | [] => some p
-  | e :: es => match p.stepW e with
-    | some p' => p'.runW es
-    | none => none
+example :
+    let r := (resolveC (β := Nat) true true).run leaf ⟨[], false⟩ (⟨[], [], []⟩ : Leaf Nat)
+      [.rdy, .snd (3, 5), .fin, .fin, .fin]
+    ProtoOk r.up ∧ ProtoOk (port 0 r.down) ∧ sends (port 0 r.down) = [] ∧ r.k.q.length = 1 := by
+  unfold ProtoOk; decide
 
-/-- every `send` in the trace is directly enabled by a `ready? true` -/
-def ReadyOk (tr : List (Ev β)) : Prop := (PSt.runW {} tr).isSome = true
-
-theorem aux_runW_append (p : PSt) (a b : List (Ev β)) :
-    p.runW (a ++ b) = (p.runW a).bind (fun p' => p'.runW b) := by
-  induction a generalizing p with
-  | nil => rfl
-  | cons e a ih =>
-    simp only [List.cons_append, PSt.runW]
-    cases p.stepW e with
-    | none => rfl
-    | some p' => simpa using ih p'
-
-theorem aux_runW_drainTr_rdy (p : PSt) (sent : List β) (r : Bool) :
-    p.runW (drainTr sent ++ [Ev.rdy r]) = some { p with ready := r } := by
-  induction sent generalizing p with
-  | nil => simp [drainTr, PSt.runW, PSt.stepW, PSt.step]
-  | cons x xs ih =>
-    have := ih { p with ready := false }
-    simp only [drainTr, List.flatMap_cons, List.cons_append, List.nil_append, List.append_assoc] at this ⊢
-    simp only [PSt.runW, PSt.stepW, PSt.step, if_true]
-    exact this
-
-/-- `ResolveFutures` in non-blocking mode — what does hold for every contract-honouring caller
-    (including one that polls again after `Done`): every downstream `send` is directly enabled by a
-    `ready? true`, and no output is lost or duplicated: delivered ++ still queued is a permutation
-    of (initially queued ++ pushed), equal to it for the ordered queue.  (The clause "no send after
-    finalize" is the refuted one, see above.) -/
-theorem resolveNonblocking_partial (ordered : Bool) (q0 : List (QEntry β)) {up : List (Ev (Nat × β))}
-    {down : List (PEv β)} {q' : List (QEntry β)}
-    (ht : (resolveC (β := β) ordered true).Tr q0 up down q') (hok : ProtoOk up) :
-    ReadyOk (port 0 down) ∧
-    (sends (port 0 down) ++ qvals q').Perm (qvals q0 ++ (sends up).map (·.2)) ∧
-    (ordered = true → sends (port 0 down) ++ qvals q' = qvals q0 ++ (sends up).map (·.2)) := by
-  obtain ⟨pu', hpu⟩ := ProtoOk_iff.1 hok
-  -- generalised over the starting point
-  suffices H : ∀ (q : List (QEntry β)) (up : List (Ev (Nat × β))) (down : List (PEv β)) (q' : List (QEntry β)),
-      (resolveC (β := β) ordered true).Tr q up down q' →
-      ∀ (pu pu' pd : PSt), pu.run up = some pu' → (pu.ready = true → pu.started = false → pd.ready = true) →
-      ∃ pd', pd.runW (port 0 down) = some pd' ∧
-        (sends (port 0 down) ++ qvals q').Perm (qvals q ++ (sends up).map (·.2)) ∧
-        (ordered = true → sends (port 0 down) ++ qvals q' = qvals q ++ (sends up).map (·.2)) by
-    obtain ⟨pd', h1, h2, h3⟩ := H q0 up down q' ht {} pu' {} hpu (by simp)
-    exact ⟨by simp [ReadyOk, h1], h2, h3⟩
-  intro q up down q' ht
-  induction ht with
-  | nil k => intro pu pu' pd _ _; exact ⟨pd, rfl, by simp, by simp⟩
-  | @rdy k k1 k2 b es down up he _ ih =>
-    intro pu pu' pd hr hrd
-    rw [PSt.run_cons] at hr
-    simp only [PSt.step, Option.bind_some] at hr
-    obtain ⟨sent, r, rfl, g1, g2, g3, _⟩ := emptyReadyAux_shape ordered true (k.length + 1) (by omega) he
-    obtain ⟨pd', h1, h2, h3⟩ := ih { pu with ready := b } pu' { pd with ready := r } hr (by intro hb _; exact g3 hb)
-    refine ⟨pd', ?_, ?_, ?_⟩
-    · rw [port_append, port_onPort_same, aux_runW_append, aux_runW_drainTr_rdy]; exact h1
-    · simp only [port_append, port_onPort_same, sends_append, sends_drainTr, sends_drainTr', sends_rdy, sends_fin, sends_nil, List.append_nil]
-      rw [List.append_assoc]
-      refine (List.Perm.append_left sent h2).trans ?_
-      rw [← List.append_assoc]
-      exact List.Perm.append_right _ g1
-    · intro ho
-      simp only [port_append, port_onPort_same, sends_append, sends_drainTr, sends_drainTr', sends_rdy, sends_fin, sends_nil, List.append_nil]
-      rw [List.append_assoc, h3 ho, ← List.append_assoc, g2 ho]
-  | @snd k k1 k2 x es down up he _ ih =>
-    intro pu pu' pd hr hrd
-    rw [PSt.run_cons] at hr
-    simp only [PSt.step] at hr
-    split at hr
-    · rename_i hc
-      simp only [Bool.and_eq_true, Bool.not_eq_true'] at hc
-      simp only [Option.bind_some] at hr
-      have hpr := hrd hc.1 hc.2
-      simp only [resolveC, if_true] at he
-      have hsp := qPoll_spec ordered (k ++ [⟨x.1, x.2, false⟩])
-      cases hq : qPoll ordered (k ++ [⟨x.1, x.2, false⟩]) with
-      | mk qq res =>
-        rw [hq] at hsp he
-        cases res with
-        | item y =>
-          simp only [emits_snd, emits_ret] at he hsp
-          obtain ⟨es', rfl, rfl, rfl⟩ := he
-          obtain ⟨p1, p2, _⟩ := hsp
-          obtain ⟨pd', h1, h2, h3⟩ := ih { pu with ready := false } pu' { pd with ready := false } hr (by simp)
-          refine ⟨pd', ?_, ?_, ?_⟩
-          · simp only [List.cons_append, List.nil_append, port_cons_same, PSt.runW, PSt.stepW, hpr, if_true]; exact h1
-          · simp only [List.cons_append, List.nil_append, port_cons_same, sends_snd, List.map_cons, List.cons_append]
-            have : (y :: (qvals k1 ++ (sends up).map (·.2))).Perm ((qvals k ++ [x.2]) ++ (sends up).map (·.2)) := by
-              rw [← List.cons_append]
-              exact List.Perm.append_right _ (by simpa using p1)
-            refine (List.Perm.cons y h2).trans (this.trans ?_)
-            simp
-          · intro ho
-            simp only [List.cons_append, List.nil_append, port_cons_same, sends_snd, List.map_cons, List.cons_append]
-            rw [h3 ho, ← List.cons_append]
-            have := p2 ho
-            simp only [qvals_append, qvals_cons, qvals_nil] at this
-            rw [this]; simp
-        | ended =>
-          simp only [emits_ret] at he hsp
-          obtain ⟨rfl, rfl⟩ := he
-          exact absurd hsp.1 (by simp)
-        | pending =>
-          simp only [emits_ret] at he hsp
-          obtain ⟨rfl, rfl⟩ := he
-          obtain ⟨p1, _, _⟩ := hsp
-          obtain ⟨pd', h1, h2, h3⟩ := ih { pu with ready := false } pu' pd hr (by simp)
-          refine ⟨pd', by simpa using h1, ?_, ?_⟩
-          · simp only [List.nil_append, sends_snd, List.map_cons]
-            refine h2.trans ?_
-            rw [p1]; simp
-          · intro ho
-            simp only [List.nil_append, sends_snd, List.map_cons]
-            rw [h3 ho, p1]; simp
-    · simp at hr
-  | @fin k k1 k2 b es down up he _ ih =>
-    intro pu pu' pd hr hrd
-    rw [PSt.run_cons] at hr
-    simp only [PSt.step, Option.bind_some] at hr
-    obtain ⟨es1, b1, he1, hcase⟩ := thenFin_shape he
-    obtain ⟨sent, r, rfl, g1, g2, g3, _⟩ := emptyReadyAux_shape ordered true (k.length + 1) (by omega) he1
-    have key : ∃ tl : List (Ev β), sends tl = [] ∧ es = onPort 0 (drainTr sent ++ [Ev.rdy r] ++ tl) ∧
-        ∀ p : PSt, ∃ p', p.runW tl = some p' := by
-      rcases hcase with ⟨_, rfl⟩ | ⟨_, _, rfl⟩
-      · exact ⟨[Ev.fin b], rfl, by simp [onPort], fun p => ⟨{ p with started := true, closed := p.closed || b }, by simp [PSt.runW, PSt.stepW, PSt.step]⟩⟩
-      · exact ⟨[], rfl, by simp, fun p => ⟨p, rfl⟩⟩
-    obtain ⟨tl, htl, rfl, hrun⟩ := key
-    obtain ⟨p1, hp1⟩ := hrun { pd with ready := r }
-    obtain ⟨pd', h1, h2, h3⟩ := ih { pu with started := true, closed := pu.closed || b } pu' p1 hr (by simp)
-    refine ⟨pd', ?_, ?_, ?_⟩
-    · rw [port_append, port_onPort_same, aux_runW_append, aux_runW_append, aux_runW_drainTr_rdy]
-      simp only [Option.bind_some, hp1]; exact h1
-    · simp only [port_append, port_onPort_same, sends_append, sends_drainTr, sends_drainTr', sends_rdy, sends_fin, sends_nil, List.append_nil, htl]
-      rw [List.append_assoc]
-      refine (List.Perm.append_left sent h2).trans ?_
-      rw [← List.append_assoc]
-      exact List.Perm.append_right _ g1
-    · intro ho
-      simp only [port_append, port_onPort_same, sends_append, sends_drainTr, sends_drainTr', sends_rdy, sends_fin, sends_nil, List.append_nil, htl]
-      rw [List.append_assoc, h3 ho, ← List.append_assoc, g2 ho]
+/-- non-vacuity of the non-blocking theorem with an actual delivery: a future that resolves in time
+    is delivered before the finalize, under the driver -/
+example :
+    let o := drive (resolveC (β := Nat) true true) leaf (fun _ => false) 3
+      ⟨[some (1, 5), some (9, 6)], false, ⟨[], false⟩, (⟨[], [[false]], []⟩ : Leaf Nat)⟩
+    o.ready = true ∧ sends (port 0 o.down) = [5] ∧ o.st.k.q.length = 1 ∧ ProtoOk (port 0 o.down) := by
+  unfold ProtoOk; decide
 
 /-! ## Pipelines -/
 
@@ -1489,7 +1467,7 @@ theorem single_port_combinators :
     (∀ le : α → α → Bool, (sortC le).Mono ⟨[], false⟩) ∧
     (∀ (buf0 : List α) (replay : Bool), (persistC (α := α)).Mono (PersistSt.new buf0 replay)) ∧
     (fmaC (β := β)).Mono ⟨none, none⟩ ∧ (fmsC (β := β)).Mono none ∧
-    (∀ (o : Bool) (q0 : List (QEntry β)), (resolveC (β := β) o false).Mono q0) :=
+    (∀ (o w : Bool) (q0 : List (QEntry β)), (resolveC (β := β) o w).Mono ⟨q0, false⟩) :=
   ⟨fun g => (aux_simFM g).mono ⟨by simp, rfl, by simp, rfl⟩,
    fun f => (aux_simFlat f).mono ⟨by simp, rfl, by simp, by simp, rfl⟩,
    aux_simInspect.mono ⟨by simp, rfl, by simp, rfl, rfl⟩,
@@ -1499,7 +1477,7 @@ theorem single_port_combinators :
      ⟨by simp, rfl, by simp [PersistSt.new], by simp [PersistSt.new], by simp, by simp⟩,
    aux_simFma.mono ⟨by simp, rfl, by simp [fmaPend], by simp, by simp, by simp⟩,
    aux_simFms.mono ⟨by simp, rfl, by simp [fmsPend], by simp, by simp⟩,
-   fun o q0 => (aux_simResolve o q0).mono ⟨by simp, rfl, by simp, by simp, by simp⟩⟩
+   fun o w q0 => (aux_simResolve o w q0).mono (aux_invResolve_init o w q0)⟩
 
 theorem keyed_single_port [DecidableEq K] (ins : V → A) (upd : A → V → A) (order : List (K × A) → List (K × A))
     (m0 : List (K × A)) : (keyedC ins upd order).Mono ⟨m0, [], 0⟩ :=
